@@ -585,7 +585,10 @@ def package_document_load(package_path, is_instance):
                 component_ids.remove((comp.get('stage', 0) + doc_stage, comp['name']))
 
             wf_components = instantiate_workflow(doc, bindings, doc_stage, foreign_ids, doc_path)
-            new_components.extend(wf_components)
+
+            # VV: Do not generate the components of the Workflow when loading instances, they already exist
+            if is_instance is False:
+                new_components.extend(wf_components)
         except Exception as e:
             flowirLogger.warning("Could not import Workflow document at %s. Exception %s" % (
                 doc_path, e))
